@@ -178,7 +178,53 @@ def target_dir(config):
     return d
 
 
-def run_harnesses(names, config, crate, features, jobs=8, timeout=3600, extra_args=None, playback=False, keep=False):
+def _wait_with_rss_watchdog(proc, timeout, mem_gb, meta):
+    """wait for proc; kill any cbmc of its session whose resident set exceeds mem_gb (the harness
+    then has no verdict = undecided) instead of letting the kernel OOM killer pick victims."""
+    t0 = time.time()
+    page = os.sysconf("SC_PAGE_SIZE")
+    killed = []
+    while True:
+        try:
+            proc.wait(timeout=2.0)
+            break
+        except subprocess.TimeoutExpired:
+            pass
+        if time.time() - t0 > timeout:
+            meta["rss_killed"] = killed
+            raise subprocess.TimeoutExpired(proc.args, timeout)
+        try:
+            sid = os.getsid(proc.pid)
+        except ProcessLookupError:
+            continue
+        for pid in os.listdir("/proc"):
+            if not pid.isdigit():
+                continue
+            try:
+                with open("/proc/%s/stat" % pid) as f:
+                    st = f.read()
+                comm = st[st.index("(") + 1:st.rindex(")")]
+                fields = st[st.rindex(")") + 2:].split()
+                if comm != "cbmc" or int(fields[3]) != sid:
+                    continue
+                rss = int(fields[21]) * page
+                if rss > mem_gb * (1 << 30):
+                    os.kill(int(pid), 9)
+                    killed.append((int(pid), rss >> 20))
+            except (OSError, ValueError, IndexError):
+                continue
+    meta["rss_killed"] = killed
+
+
+def _limit_mem(gb):
+    def f():
+        import resource
+        lim = int(gb * (1 << 30))
+        resource.setrlimit(resource.RLIMIT_AS, (lim, lim))
+    return f
+
+
+def run_harnesses(names, config, crate, features, jobs=8, timeout=3600, extra_args=None, playback=False, keep=False, mem_gb=None):
     """run the named harnesses (one cargo kani invocation) on a fresh scratch copy of the
     current working tree. returns (results dict, meta)"""
     t0 = time.time()
@@ -204,11 +250,15 @@ def run_harnesses(names, config, crate, features, jobs=8, timeout=3600, extra_ar
         env.pop("RUSTUP_TOOLCHAIN", None)
         meta["cmd"] = " ".join(cmd)
         logp = os.path.join(target_dir(config), "last-run.log")
+        # every process of the run (each cbmc) is capped; total = jobs * cap stays below the machine's RAM
+        if mem_gb is None:
+            mem_gb = max(4.0, min(20.0, 52.0 / max(1, min(jobs, len(names)))))
+        meta["mem_gb_per_process"] = mem_gb
         with open(logp, "w") as lf:
             proc = subprocess.Popen(cmd, cwd=scratch, env=env, stdout=lf, stderr=subprocess.STDOUT, text=True,
                                     start_new_session=True)
             try:
-                proc.wait(timeout=timeout)
+                _wait_with_rss_watchdog(proc, timeout, mem_gb, meta)
                 meta["exit"] = proc.returncode
             except subprocess.TimeoutExpired:
                 meta["exit"] = -9
@@ -244,8 +294,9 @@ if __name__ == "__main__":
     ap.add_argument("-j", type=int, default=8)
     ap.add_argument("--playback", action="store_true")
     ap.add_argument("--timeout", type=int, default=3600)
+    ap.add_argument("--mem", type=float, default=None)
     a = ap.parse_args()
-    res, meta = run_harnesses(a.harness, a.config, a.crate, a.features, a.j, a.timeout, playback=a.playback)
+    res, meta = run_harnesses(a.harness, a.config, a.crate, a.features, a.j, a.timeout, playback=a.playback, mem_gb=a.mem)
     for k, v in res.items():
         print(k, v["status"], v["time"], v["covers"], [f["desc"] + " @" + f["file"] + ":" + str(f["line"]) for f in v["fails"]])
     if not res or a.playback:
